@@ -16,7 +16,7 @@ func init() {
 			"are parsed from the very HeaderAndBody that was verified; the signature input depends " +
 			"on the header-and-body bytes and on every associated-data element; Sign returns the " +
 			"bytes it signed. NOT decided: ECDSA and hash arithmetic, protobuf canonical form.",
-		Run: func(c *Ctx) { runSignedMsg(c, "S1-signed-message"); c38AlgoConsistency(c); c38TimestampPresence(c) },
+		Run: func(c *Ctx) { runSignedMsg(c, "S1-signed-message"); c38AlgoConsistency(c); c38TimestampPresence(c); c38EveryElementFed(c, "F2-every-element-is-fed") },
 	})
 	setClaim("C38", claim{
 		Text: "Sibling agreement of Sign and Verify on the signature input (symbolic pairing), guard " +
